@@ -1494,13 +1494,15 @@ class System:
                 assert mod.source_path is not None
                 ast = builder.parseFile(mod.source_path, mod)
             if ast:
-                self.processing_modules.append(mod.fullName())
+                # The module can be moved (re-exported) while it is processed: remember its name.
+                processing_name = mod.fullName()
+                self.processing_modules.append(processing_name)
                 if mod._py_string is None:
                     self.msg("processModule", "processing %s"%(self.processing_modules), 1)
                 builder.processModuleAST(ast, mod)
                 mod.state = ProcessingState.PROCESSED
                 head = self.processing_modules.pop()
-                assert head == mod.fullName()
+                assert head == processing_name
         self.progress(
             'process',
             self.module_count - len(self.unprocessed_modules),
